@@ -45,6 +45,51 @@ fn canon<const N: usize>(bytes: [u8; N]) {
     kani::cover!(true);
 }
 
+/// The same for a component type (addresses): bytes that decode (consuming everything) re-encode
+/// to exactly those bytes.
+fn canon_t<T: Decode + Encode, const N: usize>(bytes: [u8; N]) {
+    match wire::deserialize::<T>(&bytes) {
+        Ok(v) => {
+            let mut out = [0u8; N];
+            let n = {
+                let mut w = io::Cursor::new(&mut out[..]);
+                match v.encode(&mut w) {
+                    Ok(n) => n,
+                    Err(e) => {
+                        std::mem::forget(e);
+                        panic!("C15: a decoded value does not re-encode into the same number of bytes")
+                    }
+                }
+            };
+            assert!(n == N, "C15: re-encoding has a different length than the bytes received");
+            let mut i = 0;
+            while i < N {
+                assert!(out[i] == bytes[i], "C15: bytes that decode successfully do not re-encode to the same bytes");
+                i += 1;
+            }
+            std::mem::forget(v);
+        }
+        Err(e) => std::mem::forget(e),
+    }
+    kani::cover!(true);
+}
+
+macro_rules! layout_t {
+    ($name:ident, $t:ty, $unwind:expr, $n:expr, $bytes:expr) => {
+        #[kani::proof]
+        #[kani::unwind($unwind)]
+        fn $name() {
+            canon_t::<$t, { $n }>($bytes)
+        }
+    };
+}
+// Address: type tag | host | port
+layout_t!(c15_address_ipv4, crate::node::Address, 12, 7, [1, s(), s(), s(), s(), s(), s()]);
+layout_t!(c15_address_ipv6, crate::node::Address, 22, 19, [2, s(), s(), s(), s(), s(), s(), s(), s(), s(), s(), s(), s(), s(), s(), s(), s(), s(), s()]);
+layout_t!(c15_address_dns1, crate::node::Address, 12, 5, [3, 1, s(), s(), s()]);
+layout_t!(c15_address_dns2, crate::node::Address, 12, 6, [3, 2, s(), s(), s(), s()]);
+layout_t!(c15_address_unknown, crate::node::Address, 12, 4, [s(), s(), s(), s()]);
+
 macro_rules! layout {
     ($name:ident, $unwind:expr, $n:expr, $bytes:expr) => {
         #[kani::proof]
